@@ -109,6 +109,15 @@ def corr_and_oracle(ck, n_circuits, thorough=False):
                 if not ok:
                     ck.broken_tie(f'SimOps model correspondence ({diff})', f'real {real[:200]} != model {model[:200]}',
                                   inp={'net': dump, 'strip': strip, 'reuse': reuse})
+        # certificate of Props/C01 (4'): operands never written at/after their use, single writers — on the REAL op rows
+        for strip in (False, True):
+            try:
+                rows, _ = simcorr.signal_rows(c, strip)
+                ans = common.run_driver([f"wellordered {'/'.join(rows)}"])[0]
+            except Exception as ex:
+                ans = f'{type(ex).__name__}: {ex}'[:200]
+            if ans != 'ok':
+                ck.broken_tie('certificate wellOrderedB on the real ops', ans, inp={'net': dump, 'strip': strip})
         case = make_case(rng, c, thorough)
         try:
             ok, obs, exp = eval_case(case)
